@@ -666,6 +666,14 @@ def run_kernel(cell, g, fails, feats):
         ok, msg = util.close(got, want, 1e-9, 1e-9)
         if not ok:
             r0_only = bool(clean.any()) and util.close(got[clean], want[clean], 1e-9, 1e-9)[0] or not bool(clean.any())
+            if kern == 0.5 and r0_only:
+                # Matern-1/2 is |.|-shaped at r = 0: the generic path computes r = sqrt(|a|^2 - 2ab + |b|^2), whose rounding error at
+                # coincident points is ~ sqrt((D+2) eps) |x / l| (sqrt amplifies cancellation noise); k = exp(-r) and its lengthscale
+                # gradient inherit exactly that error. This is rounding of an ill-conditioned expression, not a wrong derivative.
+                scale = float((x1 / k.lengthscale.detach()).norm(dim=-1).max())
+                bound = 1e-9 + 8 * (float(torch.finfo(F64).eps) * (d + 2)) ** 0.5 * scale * max(1.0, float(Gup.abs().sum()))
+                if util.maxerr(got, want) <= bound:
+                    return True
             fails.add(sub, f"mismatch err={msg}" + ("; confined to entries with r = 0 exactly" if r0_only else ""),
                       (detail + " | " + worst(got, want))[:600])
             fails[-1]["features"] = dict(feats, versus=versus, r0_only=r0_only)
